@@ -143,6 +143,15 @@ func (c *runCtx) c17Case(kind string, x []byte) {
 		}
 		cls = append(cls, ch)
 	}
+	// limits far beyond the input (Detect slices, nothing is allocated): still "more bytes examined", not fewer
+	for _, l := range []uint32{64<<20 + 1, 1 << 31, 1<<32 - 1} {
+		m, pan := detectAt(x, l)
+		ch := byte('P')
+		if pan == nil && m != nil {
+			ch = classOf(chainOf(m))
+		}
+		cls = append(cls, ch)
+	}
 	m, pan := detectAt(x, 0)
 	ch := byte('P')
 	if pan == nil && m != nil {
@@ -241,6 +250,13 @@ func runC17(c *runCtx) {
 	// ttf / access hand-over family
 	for _, tail := range []string{"Standard ACE DB", "Standard Jet DB", "Standard ", "Standard ACE D", "Standard Jet DBx", "Stand", ""} {
 		c.c17Case("ttf-family", cat([]byte{0, 1, 0, 0}, []byte(tail), randBytes(c.rng, 20)))
+	}
+	// formats that are identified only beyond the default limit: a Chrome extension whose key and signature push the
+	// embedded zip past 3072 bytes
+	for _, kl := range [][2]uint32{{2000, 2012}, {3000, 100}, {16, 3100}} {
+		hdr := cat([]byte("Cr24"), []byte{2, 0, 0, 0}, []byte{byte(kl[0]), byte(kl[0] >> 8), 0, 0}, []byte{byte(kl[1]), byte(kl[1] >> 8), 0, 0})
+		x := cat(hdr, bytes.Repeat([]byte{'k'}, int(kl[0]+kl[1])), []byte("PK\x03\x04"), make([]byte, 26), []byte("manifest.json"), []byte("{}"))
+		c.c17Case("crx-deep", x)
 	}
 }
 
